@@ -648,3 +648,29 @@ Proof.
   - apply external_seed in H as [v [-> Hv]]. rewrite Hv. simpl. rewrite N.eqb_refl. reflexivity.
   - apply external_no_seed in H. subst. reflexivity.
 Qed.
+
+(** ** histories of calls on one vectorised callable *)
+
+(** the decidable history predicate gives the per-row statement for every call of the history, each w.r.t. its own inputs *)
+Theorem history_ok_sound h : ok_history h = true -> forall c, In (CVec c) h -> vec_statement c.
+Proof.
+  unfold ok_history. intros H c Hin. rewrite forallb_forall in H. specialize (H _ Hin). simpl in H. apply vok_sound. exact H.
+Qed.
+
+(** one call of a history on the callable [partial(run_vectorized, op, constants=, dtype=)] *)
+Record hcall := { h_inputs : list value; h_batch_size : option nat; h_kw : dict; h_meta : option dict }.
+
+(** the model's history: every call runs [run_vectorized] on the SAME [constants] / [dtype] (those held by the partial; the first
+    statement of [run_vectorized] copies them) and on its own inputs *)
+Definition model_history (constants : option (list nat)) (df : bool) (calls : list hcall) : history :=
+  map (fun k => CVec {| v_inputs := h_inputs k; v_constants := constants; v_batch_size := h_batch_size k; v_kw := h_kw k;
+                        v_meta := h_meta k; v_dtype_false := df;
+                        v_impl := vview (run_vectorized (h_inputs k) constants (h_batch_size k) (h_kw k) (h_meta k) df);
+                        v_impl_obj := df |}) calls.
+
+Theorem history_model_ok constants df calls : ok_history (model_history constants df calls) = true.
+Proof.
+  unfold ok_history, model_history. apply forallb_forall. intros c Hin. apply in_map_iff in Hin as [k [<- _]].
+  simpl. apply vmodel_ok.
+Qed.
+
